@@ -129,6 +129,17 @@ Halt(st) == /\ status' = st
             /\ steps' = steps + 1
             /\ UNCHANGED <<env, pc, reg, rt, mem, sw, frames, curFn, hlog, defd>>
 
+\* An access refused because its address lies in no region.  Through a pointer into the buffer the
+\* fixed-metadata VM allocates itself (taint "m": its base here is fictitious) the refusal is only
+\* what happens when nothing else lies there: that buffer is a heap neighbour of the interpreter's
+\* stack, so an address beyond its end may fall into the stack and be served.  Such a run depends
+\* on raw addresses and is outside every claim (defd); the error is still the specified outcome
+\* when the address lies in no region.
+OobHalt(ta) == /\ status' = StErr("oob")
+               /\ steps' = steps + 1
+               /\ defd' = (defd /\ ta # "m")
+               /\ UNCHANGED <<env, pc, reg, rt, mem, sw, frames, curFn, hlog>>
+
 SetReg(d, v, t) == /\ reg' = [reg EXCEPT ![d] = v]
                    /\ rt'  = [rt  EXCEPT ![d] = t]
 
@@ -175,7 +186,7 @@ LoadTaint(r, off, len) ==
   IF r = R_STACK THEN (IF \A k \in off..(off+len-1) : k \in sw THEN "c" ELSE "u") ELSE "c"
 
 DoLoad(d, addr, len, ta) ==
-  IF ~Allowed(addr, len) THEN Halt(StErr("oob"))
+  IF ~Allowed(addr, len) THEN OobHalt(ta)
   ELSE LET r   == RegionOf(addr, len)
            off == OffIn(r, addr, len)
        IN /\ SetReg(d, ReadBytes(r, off, len), LoadTaint(r, off, len))
@@ -191,7 +202,7 @@ ExecLdInd(i) == DoLoad(0, Add(Add(env.base[R_PKT], reg[i.src]), ImmZ(i)), Width(
                        IF rt[i.src] = "c" THEN "c" ELSE "u")
 
 DoStore(addr, len, val, ta, tv) ==
-  IF ~Allowed(addr, len) THEN Halt(StErr("oob"))
+  IF ~Allowed(addr, len) THEN OobHalt(ta)
   ELSE LET r   == RegionOf(addr, len)
            off == OffIn(r, addr, len)
        IN /\ mem' = WriteBytes(mem, r, off, len, val)
@@ -209,7 +220,7 @@ ExecStx(i) == DoStore(Add(reg[i.dst], OffWord(i)), Width(i.opc), reg[i.src], rt[
 ExecXadd(i) ==
   LET len  == Width(i.opc)
       addr == Add(reg[i.dst], OffWord(i))
-  IN IF ~Allowed(addr, len) THEN Halt(StErr("oob"))
+  IN IF ~Allowed(addr, len) THEN OobHalt(rt[i.dst])
      ELSE IF ~Aligned(addr, len) THEN Halt(StErr("unaligned"))
      ELSE LET r   == RegionOf(addr, len)
               off == OffIn(r, addr, len)
